@@ -8,6 +8,7 @@ permutations, objective scaling, GLPK/DSDP back-ends, junk above the diagonal) a
 emitted - and solved; TLC checks that all calls of one problem end in the same class.  Unsupported KKT names must raise
 ValueError before any KKT call (table from the model)."""
 import json, os, random, multiprocessing as mp
+PMAP_TIMEOUT = int(__import__('os').environ.get('VERIF_PMAP_TIMEOUT', '300'))
 from harness import tlc, plants
 from harness.core import Check
 
@@ -181,8 +182,10 @@ def run(tier, seed, replay=None):
         if d["s"] and any(m >= 2 for m in d["s"]):
             pres.append(("Junk", None))
         jobs.append((I, pres, seed))
-    with mp.Pool(16) as pool:
-        res = pool.map(_job, jobs, chunksize=2)
+    from harness.core import pmap
+    res = pmap(ck, _job, jobs, "c06", timeout=PMAP_TIMEOUT, chunksize=2)
+    if res is None:
+        ck.finish()
     # traces for SameResult
     traces = []
     for R in res:
@@ -233,9 +236,10 @@ def run(tier, seed, replay=None):
         ck.sample(R)
     # C06n: names table
     chunks = [names[i::8] for i in range(8)]
-    ctx = mp.get_context("spawn")
-    with ctx.Pool(8) as pool:
-        nres = pool.map(_names_job, chunks)
+    from harness.core import pmap
+    nres = pmap(ck, _names_job, chunks, "c06-names", timeout=PMAP_TIMEOUT, procs=8, ctx="spawn")
+    if nres is None:
+        ck.finish()
     for part in nres:
         for x in part:
             ck.evaluations += 1
